@@ -8,7 +8,7 @@ From Coq Require Import List NArith ZArith Arith Bool.
 From Tongo Require Import Lib.Bits Lib.Res Spec.Sha256 Model.BocParse Model.CellHash Spec.ReprHash
   Spec.BocLayout Proofs.CellHashP Proofs.DagP Model.MsgHash Spec.MsgCanon
   Proofs.MsgHashP Proofs.MsgHashN Proofs.MsgHashD Proofs.MsgHashI Model.MsgHist Proofs.MsgHistP
-  Model.BocSer Proofs.BocParseP Proofs.BocSerLayoutP2 Proofs.BocSerLayoutP5 Proofs.MsgHashS Model.MsgOracle Proofs.MsgOracleP.
+  Model.BocSer Proofs.BocParseP Proofs.BocSerLayoutP2 Proofs.BocSerLayoutP5 Proofs.MsgHashS Model.MsgOracle Proofs.MsgOracleP Proofs.MsgHashHistory.
 Import ListNotations.
 
 (** The hash reported for a decoded message is the representation hash of the
@@ -294,6 +294,39 @@ Theorem C16_hash_calls_do_not_change_hashes :
   forall (H : bytes -> bytes) (b : bool) (m : msg) (n : bool),
   m_hash (after_hash b m) = m_hash m /\ msg_hash H n (after_hash b m) = msg_hash H n m.
 Proof. exact after_hash_observables. Qed.
+
+(** ... for any number of callers: every interleaving of Hash(false) / Hash(true)
+    calls on one decoded message (each call atomic; what happens inside a call
+    is a matter of the Go memory model, its observable consequence is checked by
+    the concurrency oracle of the harness) answers exactly what a single call on
+    the freshly decoded message answers. *)
+Theorem C16_hash_calls_any_interleaving :
+  forall (H : bytes -> bytes) (calls : list bool) (m : msg),
+  run_hash_calls H calls m = map (fun n => msg_hash H n m) calls.
+Proof. exact hash_calls_any_order. Qed.
+Print Assumptions C16_hash_calls_any_interleaving.
+
+(** Seeded designs refuted (Proofs/MsgHashHistory.v): reading the body through
+    the message's own cell makes CopyRemaining's save / move / restore of the
+    cursor visible: with the schedule A begins, B begins, A ends, B ends, B
+    hashes an empty body and so does every later call (C16-r3m1); sizing the
+    cell-count field from the largest index writes the count 256 as 0
+    (C16-r3m2, the model uses byte_len of the count, C01). *)
+Theorem C16_shared_cursor_design_refuted :
+  forall b : bits, b <> [] ->
+  let s0 := mksb b 0 in
+  let '(ra, sa, s1) := copy_begin s0 in
+  let '(rb, sb, s2) := copy_begin s1 in
+  let s3 := copy_end sa s2 in
+  let s4 := copy_end sb s3 in
+  ra = b /\ rb = [] /\ fst (fst (copy_begin s4)) = [].
+Proof. exact shared_cursor_design_refuted. Qed.
+
+Theorem C16_index_width_design_refuted :
+  byte_len (256 - 1)%N = 1%nat /\ be_n 1 256%N = [0%N] /\
+  byte_len 256%N = 2%nat /\ be_n 2 256%N = [1%N; 0%N] /\
+  byte_len (65536 - 1)%N = 2%nat /\ be_n 2 65536%N = [0%N; 0%N].
+Proof. exact index_width_design_refuted. Qed.
 
 Theorem C16_hash_true_receiver :
   forall m : msg,
